@@ -12,11 +12,11 @@ pub fn gen_byte(wid: u64, k: u64) -> u8 {
     (wid.wrapping_mul(131).wrapping_add(k.wrapping_mul(7)).wrapping_add((k >> 8).wrapping_mul(13)).wrapping_add(1) & 0xff) as u8
 }
 
-fn gen_data(wid: u64, n: u64) -> Vec<u8> {
+pub fn gen_data(wid: u64, n: u64) -> Vec<u8> {
     (0..n).map(|k| gen_byte(wid, k)).collect()
 }
 
-fn name(id: u64) -> String {
+pub fn name(id: u64) -> String {
     format!("r{id}")
 }
 
@@ -40,7 +40,7 @@ pub enum Op {
 }
 
 impl Op {
-    fn show(&self) -> String {
+    pub fn show(&self) -> String {
         match self {
             Op::Create(i, h) => format!("c:{i}:{}", *h as u8),
             Op::Write(i, w, n) => format!("w:{i}:{w}:{n}"),
@@ -59,7 +59,7 @@ impl Op {
             Op::SetMinRegions(n) => format!("mr:{n}"),
         }
     }
-    fn parse(s: &str) -> Op {
+    pub fn parse(s: &str) -> Op {
         let t: Vec<&str> = s.split(':').collect();
         let n = |i: usize| t[i].parse::<u64>().unwrap();
         match t[0] {
@@ -106,25 +106,25 @@ fn err_name(e: &rawdb::Error) -> &'static str {
 
 /// The plain reference of the property: one independent byte vector per region name.
 #[derive(Clone, Default)]
-struct RefRegion {
-    data: Vec<u8>,
-    persisted: bool,
+pub struct RefRegion {
+    pub data: Vec<u8>,
+    pub persisted: bool,
 }
 
-struct World {
-    dir: tempfile::TempDir,
-    db: Option<Database>,
-    handles: BTreeMap<u64, Region>,
-    reference: BTreeMap<u64, RefRegion>,
+pub struct World {
+    pub dir: tempfile::TempDir,
+    pub db: Option<Database>,
+    pub handles: BTreeMap<u64, Region>,
+    pub reference: BTreeMap<u64, RefRegion>,
 }
 
 impl World {
-    fn new(min_len: u64) -> World {
+    pub fn new(min_len: u64) -> World {
         let dir = tempfile::tempdir().unwrap();
         let db = Database::open_with_min_len(dir.path(), min_len as usize).unwrap();
         World { dir, db: Some(db), handles: BTreeMap::new(), reference: BTreeMap::new() }
     }
-    fn db(&self) -> &Database {
+    pub fn db(&self) -> &Database {
         self.db.as_ref().unwrap()
     }
     fn region(&self, id: u64) -> Option<Region> {
@@ -132,7 +132,7 @@ impl World {
     }
 
     /// Executes `op` on the real database; returns the result token.
-    fn exec(&mut self, op: &Op) -> String {
+    pub fn exec(&mut self, op: &Op) -> String {
         let r = catch_unwind(AssertUnwindSafe(|| self.exec_inner(op)));
         match r {
             Ok(s) => s,
@@ -233,7 +233,7 @@ impl World {
     }
 
     /// Expected result and effect on the reference (the spec of the property).
-    fn apply_ref(&mut self, op: &Op) -> String {
+    pub fn apply_ref(&mut self, op: &Op) -> String {
         let held = |w: &World, id: &u64| w.handles.contains_key(id);
         match op {
             Op::Create(id, _) => {
@@ -337,7 +337,7 @@ impl World {
     }
 
     /// Complete allocator state in canonical text (model level).
-    fn dump(&self) -> String {
+    pub fn dump(&self) -> String {
         let db = self.db();
         let layout = db.layout();
         let regions = db.regions();
@@ -501,14 +501,20 @@ impl World {
     }
 }
 
-struct Gen {
-    rng: Rng,
-    next_id: u64,
-    next_w: u64,
+pub struct Gen {
+    pub rng: Rng,
+    pub next_id: u64,
+    pub next_w: u64,
+    pub max_size: u64,
 }
 
 impl Gen {
     fn size(&mut self) -> u64 {
+        let v = self.size_raw();
+        if self.max_size > 0 { v.min(self.max_size) } else { v }
+    }
+
+    fn size_raw(&mut self) -> u64 {
         match self.rng.below(20) {
             0 => 0,
             1 => 1,
@@ -525,7 +531,7 @@ impl Gen {
         }
     }
 
-    fn next_op(&mut self, w: &World, malformed: bool) -> Op {
+    pub fn next_op(&mut self, w: &World, malformed: bool) -> Op {
         let live: Vec<u64> = w.reference.keys().copied().collect();
         let pick = |g: &mut Gen| -> u64 {
             if live.is_empty() || (malformed && g.rng.chance(1, 3)) { g.rng.below(g.next_id + 2) } else { *g.rng.pick(&live) }
@@ -678,7 +684,7 @@ pub fn run(args: &[String]) -> i32 {
         }
         return 0;
     }
-    let mut g = Gen { rng: Rng::new(a.seed), next_id: 0, next_w: 0 };
+    let mut g = Gen { rng: Rng::new(a.seed), next_id: 0, next_w: 0, max_size: 0 };
     for c in 0..a.cases {
         g.next_id = 0;
         let min_len = match g.rng.below(6) { 0 => g.rng.below(3 << 20), 1 => 4096, _ => 0 };
